@@ -3,7 +3,7 @@
     [den] (a query tree; Model/Query.v's [eval] is its reference semantics).  Model/Parser.v: the parser.
     External engines are universally quantified ([rq] regexp classification, [rx_auto], [rcompile], [lang]). *)
 From ZV Require Import Lib.Base Model.Query Generated.ParserTables Model.Parser Model.QueryDoc Model.QueryDocRun.
-From ZV Require Import Proofs.QueryDocTree Proofs.QueryDocParse Proofs.QuerySimplify Proofs.QueryDocSem Proofs.C06Main.
+From ZV Require Import Proofs.QueryDocTree Proofs.QueryDocParse Proofs.QuerySimplify Proofs.QueryDocSem Proofs.C06Main Proofs.DocTable.
 From Coq Require Import String.
 Open Scope N_scope.
 
@@ -78,6 +78,12 @@ Theorem C06_case_auto_iff_upper :
     QSubstring p (match k with CYes => true | CNo => false | CAuto => existsb is_upper p end) f c.
 Proof. exact case_auto_iff_upper. Qed.
 Print Assumptions C06_case_auto_iff_upper.
+
+(** the Coq reading uses exactly the fields, aliases and value sets of the document: [doc_fields], [doc_types],
+    [doc_booleans], [doc_cases] are regenerated from doc/query_syntax.md (field table, EBNF summary) on every run *)
+Theorem C06_reading_covers_documented_table : doc_check = true.
+Proof. exact doc_table_agrees. Qed.
+Print Assumptions C06_reading_covers_documented_table.
 
 (** ---- where the implementation deviates from the document (known findings, not repaired) *)
 (** [lit_rq] [ex_parse] [ex_den] [ex_wf]: concrete engines (every text a literal) - Proofs/C06Main.v *)
